@@ -120,20 +120,29 @@ func TestMain(m *testing.M) {
 		os.Exit(m.Run())
 	}
 	const goroutines = 8
-	var wg sync.WaitGroup
-	start := make(chan struct{})
 	bad := make(chan string, goroutines)
-	for g := 0; g < goroutines; g++ {
-		wg.Add(1)
-		go func(g int) {
-			defer wg.Done()
-			<-start
-			for i := range genTypes {
-				ti := &genTypes[(i+g*7)%len(genTypes)]
-				if len(ti.Consts) == 0 {
-					continue
-				}
-				for _, v := range probeValues(ti) {
+	// type by type: all goroutines are released together on each type, so
+	// that the first String call on that type in this process is made by
+	// several goroutines at once
+	for i := range genTypes {
+		ti := &genTypes[i]
+		if len(ti.Consts) == 0 {
+			continue
+		}
+		vals := probeValues(ti)
+		var wg sync.WaitGroup
+		start := make(chan struct{})
+		for g := 0; g < goroutines; g++ {
+			wg.Add(1)
+			go func(g int) {
+				defer wg.Done()
+				<-start
+				for k := range vals {
+					// named constants first (g even) or the probe order (g odd)
+					v := vals[(k+g*len(vals)/goroutines)%len(vals)]
+					if g%2 == 0 && k < len(ti.Consts) {
+						v = ti.Consts[(k+g)%len(ti.Consts)].Value
+					}
 					if msg := checkValue(ti, v); msg != "" {
 						select {
 						case bad <- msg:
@@ -142,11 +151,11 @@ func TestMain(m *testing.M) {
 						return
 					}
 				}
-			}
-		}(g)
+			}(g)
+		}
+		close(start)
+		wg.Wait()
 	}
-	close(start)
-	wg.Wait()
 	select {
 	case msg := <-bad:
 		fmt.Println("MISMATCH " + msg)
